@@ -17,6 +17,9 @@ claim("C13", "ESP path simulation (existence-probe / overwrite-permission gate b
 claim("C01", "ESP must-pass-through rules on the verification core, the chain check and every entry point enumerated by type + operand identity / access-path rules + cert-table registration shape",
       "Decides, for all paths of every function that receives roots of trust in verify, gcetcbendorsement and its CLI, that a nil result is only reachable through a successful chain verification (caller's pool and time, nil pool rejected first) and a successful PSS/SHA-256 signature check made with the verified certificate over the very payload bytes that were parsed, before any content is consumed; SNP validator registered as required. It shows no path accepts without the checks, not that the cryptography is strong.",
       "DESIGN.md §3 C01")
+claim("C02", "flag-sensitive ESP acceptance rules (comparison true-edge must be passed) on verify.SNP, the validator closure, the core, SevPolicy and TdxPolicy + literal-field forwarding slices keyed by public flag names",
+      "Decides on all paths that acceptance needs the true edge of a byte comparison between the report measurement and the value endorsed for the named configuration (keyed lookup; failed presence test never accepts), that the length gate precedes verification, that an expected digest is compared, that derived policies carry the measurement / a non-empty MRTD allow-list of the named configuration, and that the named count / RAM size is forwarded from CLI flags and library options. Byte-level equality and the external policy engines are trusted.",
+      "DESIGN.md §3 C02")
 PENDING = "static rules designed in DESIGN.md §3 but not implemented yet in this revision; not claimed until the rule set lands"
-for p in ["C02","C03","C04","C05","C06","C07","C08","C09","C12","C16","C17","C18","C19","C20"]:
+for p in ["C03","C04","C05","C06","C07","C08","C09","C12","C16","C17","C18","C19","C20"]:
     na(p, PENDING)
